@@ -135,7 +135,8 @@ def make_sampler(rng, blobs, **kw):
 
     if blobs:
         def loglike(x):
-            return -0.5 * float(np.sum(x ** 2)), float(np.sum(x) * 3.0 + 1.0)
+            # zero likelihood on part of the prior: exercises the replacement of -inf prior draws
+            return (-0.5 * float(np.sum(x ** 2)) if x[0] > -2.5 else -np.inf), float(np.sum(x) * 3.0 + 1.0)
     else:
         def loglike(x):
             return -0.5 * float(np.sum(x ** 2))
@@ -214,6 +215,11 @@ def check_posterior(run, s, rng, blobs, tier, what):
                     bad = r
                     break
                 sel.append(cand[0])
+            if bad is None and bs is not None:
+                wrong = [r for r in range(len(xs)) if float(np.sum(xs[r]) * 3.0 + 1.0) != float(bs[r])]
+                if wrong:
+                    run.fail("posterior-blob-not-of-sample", f"row {wrong[0]}: the returned blob is not the one the likelihood returns at the returned sample", **w2)
+                    continue
             if bad is not None:
                 run.fail("posterior-rows-misaligned", f"row {bad}: no pool particle carries this (sample, logl, blob, logw) combination", **w2)
                 continue
@@ -274,6 +280,35 @@ def check_run(run, s, n_total, what):
         run.fail("exit-state", "current beta differs from the last committed beta", **what)
 
 
+def boundary_probe(run, tier, rng):
+    """the ESS trajectory of a seeded run does not depend on n_total: probe once, then ask for n_total just above
+    the ESS reached at each iteration (and exactly at integer-rounding boundaries) and check the exit conditions."""
+    from tempest.tools import effective_sample_size
+    reps = 1 if tier == "quick" else 4
+    for t in range(reps):
+        seed = rng.randrange(10 ** 6)
+        cfg = dict(clustering=False, random_state=seed, n_particles=12)
+        s = make_sampler(rng, False, **cfg)
+        s._core._initialize_fresh()
+        traj = []
+        for it in range(14):
+            s.sample()
+            logw, _ = s.state.compute_logw_and_logz(1.0)
+            traj.append((float(s.state.get_current("beta")), float(effective_sample_size(np.exp(logw - np.max(logw))))))
+        targets = sorted({int(e) + 1 for b, e in traj if 1 - b < 1e-4 and e - int(e) >= 0.5})[:3] or \
+            sorted({int(e) + 1 for b, e in traj if 1 - b < 1e-4})[:2]
+        for n_total in targets:
+            s2 = make_sampler(rng, False, **cfg)
+            what = dict(cfg=str(cfg), n_total=n_total, probe_trajectory=traj)
+            try:
+                s2.run(n_total=n_total, progress=False)
+            except Exception as e:
+                run.fail("run-raises", f"run raised {type(e).__name__}: {e}", **what)
+                continue
+            run.case(key=("boundary", t, n_total), nontrivial=True)
+            check_run(run, s2, n_total, what)
+
+
 def sweep(run, tier, rng):
     cfgs = []
     for sample in ("tpcn", "rwm"):
@@ -324,6 +359,7 @@ def main(tier, seed):
     run.prove("Props/C12.v", link_rels=["Link/Posterior.v"])
     try:
         sweep(run, tier, rng)
+        boundary_probe(run, tier, rng)
     except Exception:
         import traceback
         run.broken.append(("harness-exception", traceback.format_exc()[-1500:]))
